@@ -11,6 +11,7 @@
 // The cases behind the first serialCases(tier) ones keep SEVERAL consumed messages in flight on one source
 // subscription and make the destination look at its arguments late (concurrent.go). Destination calls are
 // attributed to consumed copies through a context tag (flightKey), so UUIDs may be empty or repeated.
+// The last churnCases(tier) cases are a FanOut whose subscriptions come and go while messages are relayed (churn.go).
 package c17
 
 import (
@@ -30,7 +31,7 @@ func init() {
 	vlib.Register(&vlib.Prop{
 		ID:    "C17",
 		Level: "exploration",
-		Cases: func(tier string) int { return serialCases(tier) + vlib.TierN(tier, 640, 25600) },
+		Cases: func(tier string) int { return serialCases(tier) + concCases(tier) + churnCases(tier) },
 		Rule: "case idx%4 selects the component (0 Forwarder+forwarder.Publisher, 1 FanIn, 2 Requeuer, 3 FanOut); the rest is drawn from the case PRNG: " +
 			"component configuration (forwarder topic default/custom, AckWhenCannotUnwrap, 0-2 pass-through middlewares, own/external router, close timeout; " +
 			"1-4 fan-in source topics; requeuer topic function const/from-metadata(with errors)/from-uuid, delay 0..2ms, own/external router; 1-3 fan-out topics x 0-3 subscriptions, " +
@@ -40,9 +41,14 @@ func init() {
 			"Messages are unusual but legal now and then: empty UUID (1 in 14), the UUID of an earlier message of the case (1 in 14), nil Metadata map (Publisher input; consumed copies of FanIn), " +
 			"hand-written envelopes with \"uuid\":\"\", null payload, {} or null metadata (valid) and with uuid/payload/metadata left out or \"uuid\":null (class handmade-partial: may be refused like a non-envelope or forwarded exactly as written, nothing invented); " +
 			"destination calls are attributed to consumed copies through a context tag, so identities need not be unique. " +
-			"The last 640 (quick) / 25600 (thorough) cases are the several-in-flight classes concurrent/<component> (component rotates with the index): every source topic is delivered by 2-4 deliverers at once (a prefetching subscriber; each still redelivers its own message after a Nack) " +
+			"Cases 2000.. (quick: 640) / 160000.. (thorough: 25600) are the several-in-flight classes concurrent/<component> (component rotates with the index): every source topic is delivered by 2-4 deliverers at once (a prefetching subscriber; each still redelivers its own message after a Nack) " +
 			"and the destination reads its arguments late: its calls (Forwarder, FanIn, Requeuer: a gated publisher in front of the recording one; FanIn 1 in 3 and FanOut: hook router.handle.before_publish) are held until every active deliverer's message waits there or the process is quiescent, " +
 			"then all or a random subset is released; the concurrent Forwarder class also publishes stage 1 from 2-3 goroutines through one forwarder.Publisher with a gated outbox (60% when >=2 destination topics). " +
+			"The last 960 (quick) / 25600 (thorough) cases are class churn/fanout: a FanOut (1-2 topics, one serial stream of 6-14 messages each) whose subscriptions come and go while the streams are relayed: per topic 1-3 subscriptions that stay to the end and 1-3 that end (context cancelled) at a random message, " +
+			"in random subscription order but with the OLDEST subscription of the topic a leaving one in >=3 of 4 cases (every later subscription then moves inside the internal Pub/Sub), 0-2 subscriptions begun right before a random later message of the topic (half of them end again later or at once); 1 in 4 subscriptions nacks a fifth of its messages once or twice, 3 in 10 yield 1-3 times before settling. " +
+			"When the leaving subscription disappears from the internal Pub/Sub is drawn per leave: cancelled before message k is handed over or right after the source saw it acked (teardown runs freely), or cancelled before message k with its removal held at hook gochannel.unsubscribe.before_remove until the internal Publish of message k has just returned (router.handle.before_settle; the releasing goroutine then yields 0-3 times), " +
+			"until the 1st-3rd send of message k to a subscription begins (gochannel.send.locked), or until the source saw message k acked. Judged: the source-side clauses of class fanout, value integrity of everything received, and per (subscription, message of its topic): never more receipts than acked source copies + own Nacks (fanout-invented); " +
+			"a subscription that was subscribed before the message was handed to the FanOut and stays to the end receives exactly that many (fanout-missing, decided by quiescence). Non-trivial: a message was relayed, a subscription stayed, and a subscription left while a later one of its topic existed. " +
 			"Router hook points get random yields. A case is non-trivial when at least one message was relayed and judged AND the case contained a fault or edge " +
 			"(injected destination failure, malformed envelope, existing retries counter, >=2 source topics, >=2 fan-out subscriptions, or an unusual message); a several-in-flight case is non-trivial when a message was relayed and at least one gate round held >=2 destination calls at once; distinct = distinct (component, configuration, message kinds, failure plans, observed settle sequence).",
 		Assumptions: []string{
@@ -54,6 +60,8 @@ func init() {
 			"a hand-written envelope that leaves out uuid, payload or metadata (or has \"uuid\":null) may be treated either as a non-envelope or as an envelope whose absent members are empty: the statement does not define envelope validity beyond what forwarder.Publisher writes",
 			"consumed messages with a nil Metadata map are generated for FanIn only: the Requeuer's counter update needs a map, and every Subscriber that builds messages with message.NewMessage/Copy delivers one",
 			"FanOut cases identify a message at the subscriptions by the metadata key c17-id (UUIDs may be empty or repeated)",
+			"churn/fanout: what a subscription receives of messages relayed before it was subscribed, and what a leaving subscription misses, is not judged (counter churn_received_from_before_join records the former); only the staying subscriptions are owed every message",
+			"churn/fanout: a removal held at the hook is in any case let go when the source has seen the chosen message settled, so no hold can outlast the stream",
 			"several-in-flight FanOut cases judge ack-before-accept by counting (acked source copies of a topic < internal Publish calls entered for it), the hook only names the topic",
 		},
 		Run: run,
@@ -64,7 +72,15 @@ func init() {
 // several-in-flight classes (concurrent.go).
 func serialCases(tier string) int { return vlib.TierN(tier, 2000, 160000) }
 
+// concCases is the number of several-in-flight cases (concurrent/*), churnCases the number of cases of class
+// churn/fanout (churn.go) behind them.
+func concCases(tier string) int  { return vlib.TierN(tier, 640, 25600) }
+func churnCases(tier string) int { return vlib.TierN(tier, 960, 25600) }
+
 func run(e *vlib.Env) vlib.Result {
+	if e.Idx >= serialCases(e.Tier)+concCases(e.Tier) {
+		return runFanOutChurn(e)
+	}
 	if j := e.Idx - serialCases(e.Tier); j >= 0 {
 		// the driver shards by idx%16: rotate so that every shard gets every component
 		switch (j + j/16) % 4 {
